@@ -65,6 +65,15 @@ def systems(env):
                 terms=[x, m.Plus(x, m.Ite(p, m.Int(2), m.Int(0))), m.Times(m.Int(-1), x)],
                 soft=[(p, 3), (q, 2), (m.LE(x, m.Int(0)), 2), (m.And(q, m.LE(m.Int(1), x)), 1)])
     S.append(soft)
+    # penalties: soft clauses with negative (and zero) weights - the optimum (5) lies ABOVE the sum of all weights (4)
+    S.append(dict(name="soft_penalties", dom={p: bools, q: bools, x: ints(-1, 2)},
+                  base=[m.Or(p, q), m.And(m.LE(m.Int(-1), x), m.LE(x, m.Int(2)))],
+                  terms=[x, m.Minus(m.Int(0), x)],
+                  soft=[(p, 3), (q, -2), (m.LE(x, m.Int(0)), -1), (m.And(q, m.LE(m.Int(1), x)), 4), (m.Not(p), 0)]))
+    # ... and a system in which many non-optimal models cost at least the sum of the weights (0; optimum 3)
+    S.append(dict(name="soft_penalties_low_sum", dom={p: bools, q: bools, x: ints(-1, 2)},
+                  base=[m.And(m.LE(m.Int(-1), x), m.LE(x, m.Int(2)))], terms=[x],
+                  soft=[(p, 3), (q, -2), (m.LE(x, m.Int(0)), -1), (m.Not(p), 0)]))
     return S
 
 
